@@ -50,7 +50,7 @@ impl<K> OrphanStats<K> {
                 let intents = self.cas_inner.index.pending_intents.lock();
                 let state = self.cas_inner.index.read_state();
                 let still_referenced = state.contains_blob_hash(hash);
-                let has_intent = intents.values().any(|intent_hash| intent_hash == hash);
+                let has_intent = intents.protects(hash);
                 drop(state);
 
                 if still_referenced || has_intent {
@@ -123,7 +123,7 @@ impl<K> OrphanStats<K> {
                 let intents = self.cas_inner.index.pending_intents.lock();
                 let state = self.cas_inner.index.read_state();
                 let still_referenced = state.contains_blob_hash(hash);
-                let has_intent = intents.values().any(|intent_hash| intent_hash == hash);
+                let has_intent = intents.protects(hash);
                 drop(state);
 
                 if still_referenced || has_intent {
@@ -168,7 +168,7 @@ impl<K> OrphanStats<K> {
         let intents = self.cas_inner.index.pending_intents.lock();
         let state = self.cas_inner.index.read_state();
         let still_referenced = state.contains_blob_hash(hash);
-        let has_intent = intents.values().any(|intent_hash| intent_hash == hash);
+        let has_intent = intents.protects(hash);
         drop(state);
 
         if still_referenced || has_intent {
